@@ -423,6 +423,79 @@ fn check_index(f: &[u8], recs: &[fai::Record], err: &Option<String>) -> Result<(
     Ok(())
 }
 
+/// idx: whenever the real indexer ACCEPTS records of a file, single-base queries through that
+/// index and the real reader return the naive base: all bases of records <= 200 bases, otherwise
+/// the first / last base of the record and of every line plus a deterministic sample.
+fn check_accepted_bases(f: &[u8], recs: &[fai::Record]) -> Result<(), (String, String)> {
+    let Some(naive) = naive_parse(f) else { return Ok(()) };
+    let eol = eol_class(f);
+    let mut regs = Vec::new();
+    let mut want = Vec::new();
+    let mut shapes = Vec::new();
+    for (k, r) in recs.iter().enumerate() {
+        let Some(n) = naive.get(k) else { break };
+        if recs[..k].iter().any(|x| x.name() == r.name()) {
+            continue; // a duplicate name resolves to the first record
+        }
+        let len = n.bases.len();
+        let mut ps: Vec<usize> = Vec::new();
+        if len <= 200 {
+            ps.extend(1..=len);
+        } else {
+            ps.push(1);
+            ps.push(len);
+            let mut at = 0usize;
+            for l in &n.lines {
+                if l.bases > 0 {
+                    ps.push(at + 1);
+                    ps.push(at + l.bases);
+                }
+                at += l.bases;
+            }
+            let mut h = (len as u64).wrapping_mul(0x9E37_79B9_7F4A_7C15) ^ f.len() as u64;
+            for _ in 0..12 {
+                h = h.wrapping_mul(6364136223846793005).wrapping_add(1442695040888963407);
+                ps.push(1 + (h >> 33) as usize % len);
+            }
+        }
+        // the index may claim more bases than the naive parse has: ask for those too
+        for p in len + 1..=(r.length() as usize).min(len + 3) {
+            ps.push(p);
+        }
+        for p in ps {
+            regs.push(Reg { name: n.name.clone(), s: Some(p as u64), e: Some(p as u64) });
+            want.push(n.bases.get(p - 1).map(|&b| vec![b]).unwrap_or_default());
+            shapes.push(if naive_regular(n) { "regular" } else { "ragged" });
+        }
+    }
+    if regs.is_empty() {
+        return Ok(());
+    }
+    let res = run_queries(f, Mode::Cursor, fai::Index::from(recs.to_vec()), &regs);
+    for (((r, got), w), shape) in regs.iter().zip(&res).zip(&want).zip(&shapes) {
+        let ok = match got {
+            Ok(b) => b == w,
+            Err(e) => w.is_empty() && e != "Panic",
+        };
+        if !ok {
+            return Err((
+                format!("fasta-accepted-base-query-{shape}-{eol}"),
+                format!(
+                    "{}:{} got={} want={}",
+                    String::from_utf8_lossy(&r.name),
+                    r.s.unwrap(),
+                    match got {
+                        Ok(b) => format!("{:?}", String::from_utf8_lossy(b)),
+                        Err(e) => e.clone(),
+                    },
+                    String::from_utf8_lossy(w)
+                ),
+            ));
+        }
+    }
+    Ok(())
+}
+
 fn check_queries(
     f: &[u8],
     mode: Mode,
@@ -660,7 +733,8 @@ fn run(c: &Case) -> Obs {
             let (recs, err) = run_index(&f, mode);
             let obs = fmt_index(&recs, &err);
             let nt = recs.iter().any(|r| r.length() > r.line_base_count().get()) || err.is_some();
-            Obs::ok(obs, nt).with_verdict(check_index(&f, &recs, &err))
+            let v = check_index(&f, &recs, &err).and_then(|()| check_accepted_bases(&f, &recs));
+            Obs::ok(obs, nt).with_verdict(v)
         }
         "q" | "qb" => {
             let f = c.b(0);
@@ -868,7 +942,7 @@ fn render_ragged(rng: &mut Rng, recs: &[GRec]) -> Vec<u8> {
         if k == victim {
             let n = lines.len();
             let mid = if n >= 3 { rng.range(1, n as u64 - 2) as usize } else { 0 };
-            match *rng.pick(&[0u64, 1, 2, 2, 3, 4, 5, 5, 6, 7, 8]) {
+            match *rng.pick(&[0u64, 1, 2, 2, 3, 4, 5, 5, 6, 7, 8, 9, 9, 10]) {
                 0 => {
                     // a middle (or first) line loses bases
                     let d = rng.range(1, lines[mid].0.len() as u64) as usize;
@@ -891,6 +965,30 @@ fn render_ragged(rng: &mut Rng, recs: &[GRec]) -> Vec<u8> {
                 5 => lines.last_mut().unwrap().1 = other.to_vec(),
                 6 => lines.insert(0, (vec![], eol.to_vec())),
                 7 => lines.clear(),
+                9 => {
+                    // last line: one base more, terminator one byte shorter (same bytes)
+                    let last = lines.last_mut().unwrap();
+                    let fill = r.w - last.0.len().min(r.w);
+                    let extra = gen_seq(rng, fill + 1);
+                    last.0.extend(extra);
+                    last.1 = if r.crlf {
+                        b"\n".to_vec()
+                    } else if k + 1 == recs.len() && r.blanks == 0 {
+                        vec![]
+                    } else {
+                        eol.to_vec()
+                    };
+                }
+                10 => {
+                    // CRLF: last line without terminator and two bases more
+                    let last = lines.last_mut().unwrap();
+                    let fill = r.w - last.0.len().min(r.w);
+                    let extra = gen_seq(rng, fill + if r.crlf { 2 } else { 1 });
+                    last.0.extend(extra);
+                    if k + 1 == recs.len() && r.blanks == 0 {
+                        last.1 = vec![];
+                    }
+                }
                 _ => {
                     // first line shorter than the rest
                     if !lines[0].0.is_empty() {
@@ -908,6 +1006,122 @@ fn render_ragged(rng: &mut Rng, recs: &[GRec]) -> Vec<u8> {
         }
     }
     out
+}
+
+/// Systematic ragged / borderline layouts of one record of `nl` lines of `w` bases (optionally
+/// followed by a second record): each shape differs from a regular file in one place.
+/// Lines are (bases, terminator).
+fn systematic_shapes(rng: &mut Rng, w: usize, nl: usize, crlf: bool) -> Vec<Vec<(Vec<u8>, Vec<u8>)>> {
+    let eol: Vec<u8> = if crlf { b"\r\n".to_vec() } else { b"\n".to_vec() };
+    let other: Vec<u8> = if crlf { b"\n".to_vec() } else { b"\r\n".to_vec() };
+    let base: Vec<(Vec<u8>, Vec<u8>)> = (0..nl).map(|_| (gen_seq(rng, w), eol.clone())).collect();
+    let last = nl - 1;
+    let mid = if nl >= 3 { nl / 2 } else { 0 };
+    let mut out = Vec::new();
+    let mut push = |f: &dyn Fn(&mut Vec<(Vec<u8>, Vec<u8>)>)| {
+        let mut v = base.clone();
+        f(&mut v);
+        out.push(v);
+    };
+    // regular references: full last line, short last line, no final terminator
+    push(&|_| {});
+    push(&|v| v[last].0.truncate(w / 2));
+    push(&|v| v[last].1.clear());
+    // last line longer in bases but not in bytes
+    push(&|v| {
+        v[last].0.push(b'N');
+        v[last].1.clear(); // LF file: w+1 bytes = line width; CRLF file: w+1 < w+2
+    });
+    push(&|v| {
+        v[last].0.push(b'N');
+        v[last].1 = b"\n".to_vec(); // CRLF file: last line LF-terminated, w+2 bytes = line width
+    });
+    push(&|v| {
+        v[last].0.extend_from_slice(b"NN");
+        v[last].1.clear(); // CRLF file: w+2 bytes = line width, two more bases
+    });
+    // last line longer in bytes only / in both
+    push(&|v| v[last].1 = other.clone());
+    push(&|v| v[last].0.push(b'N'));
+    // a middle (or first) line longer / shorter by one base, same and other terminator
+    push(&|v| v[mid].0.push(b'N'));
+    push(&|v| {
+        v[mid].0.pop();
+    });
+    push(&|v| {
+        v[mid].0.push(b'N');
+        v[mid].1 = b"\n".to_vec(); // CRLF file: same bytes, one more base
+    });
+    push(&|v| {
+        v[mid].0.pop();
+        v[mid].1 = b"\r\n".to_vec(); // LF file: same bytes, one base fewer
+    });
+    push(&|v| v[mid].1 = other.clone());
+    // the width changes only in the last two lines
+    if nl >= 2 {
+        push(&|v| {
+            v[last - 1].1 = other.clone();
+            v[last].0.truncate(w / 2);
+        });
+        push(&|v| {
+            v[last - 1].0.push(b'N');
+            v[last].0.truncate(w / 2);
+        });
+        push(&|v| {
+            v[last - 1].0.pop();
+            v[last].0.truncate(w / 2);
+        });
+        push(&|v| {
+            v[last - 1].1 = other.clone();
+            v[last].1 = other.clone();
+        });
+        push(&|v| {
+            v[last - 1].0.push(b'N');
+            v[last].0.push(b'N');
+        });
+    }
+    // a blank line before the last line / two blank lines at the end
+    push(&|v| v.insert(last, (vec![], eol.clone())));
+    push(&|v| {
+        v.push((vec![], eol.clone()));
+        v.push((vec![], eol.clone()));
+    });
+    out
+}
+
+fn gen_systematic(rng: &mut Rng, w: &mut CaseWriter, wmax: usize) {
+    for width in 1..=wmax {
+        for nl in 1..=4usize {
+            for crlf in [false, true] {
+                for shape in systematic_shapes(rng, width, nl, crlf) {
+                    for follow in [false, true] {
+                        let eol: &[u8] = if crlf { b"\r\n" } else { b"\n" };
+                        let mut f = b">s".to_vec();
+                        f.extend_from_slice(eol);
+                        for (b, t) in &shape {
+                            f.extend_from_slice(b);
+                            f.extend_from_slice(t);
+                        }
+                        if follow {
+                            if !matches!(f.last(), Some(b'\n')) {
+                                f.extend_from_slice(eol);
+                            }
+                            f.extend_from_slice(b">t x");
+                            f.extend_from_slice(eol);
+                            f.extend_from_slice(b"GG");
+                            f.extend_from_slice(eol);
+                        }
+                        let mode = match rng.below(3) {
+                            0 => "c0".to_string(),
+                            1 => format!("b{}", rng.range(1, 7)),
+                            _ => format!("z{}", rng.range(1, 9)),
+                        };
+                        w.push("idx", vec![hex(&f), mode]);
+                    }
+                }
+            }
+        }
+    }
 }
 
 fn gen_mode(rng: &mut Rng) -> String {
@@ -1141,6 +1355,7 @@ fn generate(rng: &mut Rng, tier: &str, w: &mut CaseWriter) {
     for _ in 0..200 * scale {
         gen_fq(rng, w);
     }
+    gen_systematic(rng, w, if tier == "thorough" { 9 } else { 4 });
     // exhaustive sweep (thorough): every (width, length) geometry up to 12 x 40, LF and CRLF,
     // followed by a second record, all single-base and all (s, e) queries for the small ones
     let (wmax, lmax) = if tier == "thorough" { (12usize, 40usize) } else { (5, 12) };
